@@ -224,7 +224,7 @@ func (r *Run) Violation(sig, detail string, replay interface{}) bool {
 	if n >= 20 {
 		return false
 	}
-	dir := filepath.Join(r.root, "replays", r.Prop)
+	dir := filepath.Join(r.outRoot(), "replays", r.Prop)
 	os.MkdirAll(dir, 0755)
 	path := filepath.Join(dir, fmt.Sprintf("%s-seed%d-%d.json", r.Tier, r.Seed, n))
 	buf, _ := json.MarshalIndent(map[string]interface{}{"property": r.Prop, "signature": sig, "detail": detail,
@@ -234,7 +234,16 @@ func (r *Run) Violation(sig, detail string, replay interface{}) bool {
 	return false
 }
 
-func (r *Run) evidencePath() string { return filepath.Join(r.root, "evidence", r.Prop+".json") }
+func (r *Run) evidencePath() string { return filepath.Join(r.outRoot(), "evidence", r.Prop+".json") }
+
+// outRoot is where evidence and replay files go: /verif, unless VERIF_OUT redirects them
+// (used when a check is pointed at a scratch copy of the repository during development).
+func (r *Run) outRoot() string {
+	if o := os.Getenv("VERIF_OUT"); o != "" {
+		return o
+	}
+	return r.root
+}
 
 // Finish writes the evidence file, prints verdict lines and exits.
 func (r *Run) Finish() {
